@@ -36,6 +36,7 @@ type leaseInst struct {
 	fault                                 []string // per lease call: "" | "refuse" | "error"; beyond the list: ""
 	provLat                               int64    // latency of CreatePartitions (ns)
 	provErr                               bool     // Provision (container) fails
+	slowListener                          int64    // a listener of this instance takes this long (ns) over every `allocated` event
 }
 
 type leaseScn struct {
@@ -76,6 +77,9 @@ func (s leaseScn) key() string {
 			f = strings.Join(fs, "+")
 		}
 		fmt.Fprintf(&sb, "%d:%d:%d:%d:%s:%s:%s:%d:%d", in.shared, in.reserved, in.factor, in.maxInterval, i64s(in.pre), i64s(in.post), f, in.provLat, b01(in.provErr))
+		if in.slowListener > 0 {
+			fmt.Fprintf(&sb, ":%d", in.slowListener)
+		}
 	}
 	sb.WriteString(" script=")
 	for i, a := range s.script {
@@ -105,11 +109,14 @@ func leaseFromKV(kv map[string]string) leaseScn {
 	}
 	for _, e := range strings.Split(kv["inst"], ";") {
 		p := strings.Split(e, ":")
-		if len(p) != 9 {
+		if len(p) != 9 && len(p) != 10 {
 			continue
 		}
 		in := leaseInst{shared: atou(p[0]), reserved: atou(p[1]), factor: atou(p[2]), maxInterval: atou(p[3]), pre: parseList(p[4]), post: parseList(p[5]),
 			provLat: i64(p[7]), provErr: p[8] == "1"}
+		if len(p) == 10 {
+			in.slowListener = i64(p[9])
+		}
 		if p[6] != "-" {
 			for _, x := range strings.Split(p[6], "+") {
 				if x == "ok" {
@@ -306,6 +313,12 @@ func runLease(s leaseScn) (line string) {
 				switch event {
 				case "allocated", "released", "capacity", "target", "provision-start", "provision-done", "shutdown":
 					lg.add("ev:%d:%s:%d", i, event, val)
+					if event == "allocated" && s.insts[i].slowListener > 0 {
+						// events are delivered synchronously: this holds the loop up before it recomputes the capacity
+						lg.add("lsleep:%d", i)
+						time.Sleep(time.Duration(s.insts[i].slowListener))
+						lg.add("lwake:%d", i)
+					}
 				case "error":
 					lg.add("ev:%d:error:%d", i, val)
 				}
@@ -644,6 +657,9 @@ func leaseRandom(r *rng) leaseScn {
 		if r.chance(1, 15) {
 			in.provErr = true
 		}
+		if r.chance(1, 12) {
+			in.slowListener = int64(r.pick(2000, 5000, 16000)) * ms
+		}
 		s.insts = append(s.insts, in)
 	}
 	t := int64(0)
@@ -666,6 +682,16 @@ func leaseRandom(r *rng) leaseScn {
 			act = fmt.Sprintf("g%d:0", i)
 		case c < 12 && s.gen == 2:
 			act = fmt.Sprintf("r%d:%d", i, uint32(r.pick(0, 1, 7, 50)))
+			if r.chance(1, 2) {
+				// the same request before and after a change of the reserve: what it asks for changes although the number does not
+				v := uint32(r.intn(int(maxc) + 5))
+				nr := uint32(r.pick(0, int(v), int(v)+3))
+				s.script = append(s.script, histAct{t: t, act: fmt.Sprintf("g%d:%d", i, v)})
+				t += int64(r.pick(100, 2500)) * ms
+				s.script = append(s.script, histAct{t: t, act: fmt.Sprintf("r%d:%d", i, nr)})
+				t += int64(r.pick(100, 2500)) * ms
+				act = fmt.Sprintf("g%d:%d", i, v)
+			}
 		case c < 14 && s.gen == 2:
 			act = fmt.Sprintf("c%d:%d", i, uint32(r.pick(0, 1, int(feff), int(shared), int(shared+2*feff), int(600*feff))))
 		case c < 15:
